@@ -48,9 +48,6 @@ Proof.
     rewrite Z.mod_small by lia. lia.
 Qed.
 
-Theorem encode_zigzag32_spec v : in_s 32 v -> encode_zigzag32 v = zz v.
-Proof. intros H. unfold encode_zigzag32, u32. apply (zigzag_w 32); [lia|exact H]. Qed.
-
 Lemma u_s w x : 0 < w -> u w (s w x) = u w x.
 Proof.
   intros Hw. unfold u, s.
@@ -58,6 +55,9 @@ Proof.
   rewrite Zminus_mod, Z.mod_mod by lia. rewrite <- Zminus_mod.
   f_equal. lia.
 Qed.
+
+Theorem encode_zigzag32_spec v : in_s 32 v -> encode_zigzag32 v = zz v.
+Proof. intros H. unfold encode_zigzag32, u32, s32. rewrite u_s by lia. apply (zigzag_w 32); [lia|exact H]. Qed.
 
 Theorem encode_zigzag64_spec v : in_s 64 v -> encode_zigzag64 v = zz v.
 Proof.
